@@ -357,6 +357,94 @@ def rule_C(ck, units):
                 ck.ob('C.amg-rebuild', 'amgcl::amg::rebuild', f.where(), not dets, '; '.join(dets[:3]))
 
 
+def rule_D(ck, units):
+    ck.rule('D.policy-from-params', 'every coarsening policy object the hierarchy code builds (do_init, rebuild; serial and MPI) is constructed from prm.coarsening, and every smoother '
+                                    'from the `relax` member of the hierarchy parameters: setup and rebuild use the same configured policies', 2)
+    ck.rule('E.coarse-enough', 'every test of a level size against prm.coarse_enough in the hierarchy construction is `rows > coarse_enough` (keep coarsening) - the loop and the '
+                               'decision about the direct coarse solver use the same strict comparison, so a level with exactly coarse_enough rows is solved directly', 1)
+    for u in units.values():
+        an = Analyzer([u])
+        # the policy types: objects on which transfer_operators / coarse_operator are invoked inside the amg classes
+        for f in u.funcs:
+            if f.cfg is None or not f.cls or not (f.cls in ('amgcl::amg', 'amgcl::mpi::amg') or f.cls.startswith(('amgcl::amg::', 'amgcl::mpi::amg::'))):
+                continue
+            users = set()
+            for c in f.calls():
+                if c.get('m') in ('transfer_operators', 'coarse_operator') and c.get('obj') is not None:
+                    o = unwrap(c['obj'])
+                    if o['k'] == 'ref':
+                        users.add(o['d'])
+                # C handed to a member that uses it (step_down(A, C, ..), level.rebuild(A, C, ..))
+                g = u.by_id.get(c.get('fd')) if 'fd' in c else None
+                if g is not None and g.cls and g.cls.startswith(('amgcl::amg', 'amgcl::mpi::amg')) and g.body is not None:
+                    for i, a in enumerate(c.get('a', [])):
+                        au = unwrap(a)
+                        if au is not None and au['k'] == 'ref' and i < len(g.params) and f.decl(au['d']).get('k') == 'local':
+                            pd = g.params[i]
+                            if any(cc.get('m') in ('transfer_operators', 'coarse_operator') and cc.get('obj') is not None and unwrap(cc['obj'])['k'] == 'ref' and unwrap(cc['obj'])['d'] == pd
+                                   for cc in g.calls()):
+                                users.add(au['d'])
+            for n in f.nodes.values():
+                if n['k'] != 'decl':
+                    continue
+                for v in n['v']:
+                    if v['d'] not in users:
+                        continue
+                    init = v.get('init')
+                    args = []
+                    if init is not None:
+                        iu = init
+                        while iu is not None and iu['k'] in ('cast', 'defarg'):
+                            iu = iu['e']
+                        args = [a for a in (iu.get('a', []) if iu is not None else []) if a is not None and a.get('k') != 'defarg']
+                    ok = len(args) == 1 and unwrap(args[0])['k'] == 'mem' and unwrap(args[0])['n'] == 'coarsening' and an.root_of_expr(f, args[0]) == ('this', 'prm')
+                    ck.ob('D.policy-from-params', '%s|%s' % (f.q, v['n']), f.where(n), ok,
+                          '' if ok else 'the coarsening policy `%s` is constructed from `%s`, not from prm.coarsening: it coarsens (or rebuilds) with other parameters than the configured ones' % (
+                              v['n'], ', '.join(show(a) for a in args) or 'nothing (default parameters)'))
+            # smoothers: make_shared<relax_type>(A, X, bprm) / relax_type(A, X, bprm)
+            for c in f.calls():
+                if (c.get('f') or '').startswith('std::make_shared') and len(c.get('a', [])) == 3:
+                    tgt = None
+                    pi = f.parent.get(c['i'])
+                    while pi is not None and f.nodes[pi]['k'] in ('cast', 'ctor', 'defarg'):
+                        pi = f.parent.get(pi)
+                    p = f.nodes.get(pi) if pi is not None else None
+                    if p is not None and p['k'] == 'bin' and p['op'] == '=':
+                        tgt = an.root_of_expr(f, p['x'])
+                    if tgt != ('this', 'relax'):
+                        continue
+                    a1 = unwrap(c['a'][1])
+                    ok = a1['k'] == 'mem' and a1['n'] == 'relax'
+                    ck.ob('D.policy-from-params', '%s|relax' % f.q, f.where(c), ok, '' if ok else 'the smoother is constructed from `%s`, not from the relax member of the parameters' % show(a1))
+            # E: comparisons with coarse_enough
+            if f.q.split('::')[-1] in ('do_init', 'init', 'amg'):
+                tests = []
+                for n in f.nodes.values():
+                    if n['k'] == 'bin' and n['op'] in ('<', '<=', '>', '>=', '==', '!='):
+                        sx, sy = show(n['x']), show(n['y'])
+                        if 'coarse_enough' in sx or 'coarse_enough' in sy:
+                            op = n['op']
+                            if 'coarse_enough' in sx:
+                                sx, sy = sy, sx
+                                op = {'<': '>', '<=': '>=', '>': '<', '>=': '<=', '==': '==', '!=': '!='}[op]
+                            # negation context
+                            neg = False
+                            cur = n
+                            for a in f.ancestors(n):
+                                if a['k'] == 'un' and a['op'] == '!':
+                                    neg = not neg
+                                elif a['k'] not in ('cast',):
+                                    break
+                            if neg:
+                                op = {'<': '>=', '<=': '>', '>': '<=', '>=': '<', '==': '!=', '!=': '=='}[op]
+                            tests.append((n, sx, op))
+                if tests:
+                    bad = [(n, sx, op) for (n, sx, op) in tests if op != '>' or 'rows' not in sx]
+                    ck.ob('E.coarse-enough', f.q, f.where(tests[0][0]), not bad,
+                          '' if not bad else 'the test at %s is `%s %s coarse_enough`; the hierarchy keeps coarsening exactly while `rows > coarse_enough`, so with a different comparison a level '
+                                             'of exactly coarse_enough rows is neither coarsened nor solved directly' % (f.where(bad[0][0]), bad[0][1], bad[0][2]))
+
+
 def main(tier):
     ck = Check('C03', tier, 'C03 (clauses): every coarse level is the (rescaled) Galerkin product of the level\'s own operators; rebuild re-uses the stored transfer operators through the same formula.')
     T = os.path.join(ir.VERIF, 'tus')
@@ -367,6 +455,7 @@ def main(tier):
     rule_A(ck, units)
     rule_B(ck, units)
     rule_C(ck, units)
+    rule_D(ck, units)
     ck.assumptions += ['backend::product / transpose / scale compute the product, adjoint and scaling (C08, not decided here)',
                        'strict decrease of level sizes and bitwise equality of actions after rebuild are not decided']
     return ck.finish()
